@@ -3,8 +3,10 @@
 use crate::runner::{RunCtx, Stage};
 
 pub mod common;
+pub mod c17;
 pub mod c19;
 pub mod c01;
+pub mod c02;
 pub mod c03;
 pub mod c04;
 pub mod c05;
@@ -15,6 +17,8 @@ pub mod c09;
 pub mod c10;
 pub mod c11;
 pub mod c12;
+pub mod c13;
+pub mod c14;
 pub mod c15;
 pub mod c16;
 
@@ -33,5 +37,5 @@ macro_rules! prop {
 }
 
 pub fn registry() -> Vec<PropDef> {
-    vec![prop!("C01", c01), prop!("C03", c03), prop!("C04", c04), prop!("C05", c05), prop!("C06", c06), prop!("C07", c07), prop!("C08", c08), prop!("C09", c09), prop!("C10", c10), prop!("C11", c11), prop!("C12", c12), prop!("C15", c15), prop!("C16", c16), prop!("C19", c19)]
+    vec![prop!("C01", c01), prop!("C02", c02), prop!("C03", c03), prop!("C04", c04), prop!("C05", c05), prop!("C06", c06), prop!("C07", c07), prop!("C08", c08), prop!("C09", c09), prop!("C10", c10), prop!("C11", c11), prop!("C12", c12), prop!("C13", c13), prop!("C14", c14), prop!("C15", c15), prop!("C16", c16), prop!("C17", c17), prop!("C19", c19)]
 }
